@@ -67,7 +67,7 @@ CLAIMS = {
          "changed afterwards is never finalised. A separate kernel runs the real execute_task over TWO locations with arbitrary previous/new write "
          "sets: a location the previous incarnation had not written (also a same-size move) sends every later transaction back through validation, and a "
          "Conflict attempt always rewinds its successors; the real validate over two locations retracts a failed incarnation whatever its write set "
-         "(estimate marks + exactly one Beneficiary::invalidate) and draws its logical timestamp before its first multi-version-memory lookup. "
+         "(estimate marks + Beneficiary::invalidate) and draws its logical timestamp before its first multi-version-memory lookup. "
          "Commit order / exactly-once / exact prefix of the commit loop: C04 h2.",
     note=TRUST + "Abstraction (inductive steps): every transaction reads and writes one location; the executor is a ghost doing IncarnationDb's read-latest-below/"
          "publish for it; re-executions with unchanged write sets start from the Executing state of a first incarnation only. A counterexample "
@@ -124,7 +124,7 @@ CLAIMS = {
          "compares the whole chain; record only for a newer incarnation, invalidate only for the same one; the real IncarnationDb::basic on the "
          "fee recipient over a real Beneficiary with any 3-entry history returns exactly that resolution, records a Beneficiary read version with "
          "the whole origin chain, and on an estimate blocks the incarnation (flag + blocker, absent account, nothing recorded, no read of the "
-         "mutable committed cache); the scheduler side of invalidation: the real validate calls Beneficiary::invalidate exactly once for every "
+         "mutable committed cache); the scheduler side of invalidation: the real validate calls Beneficiary::invalidate for every "
          "validation ending in Conflict, also for an incarnation with an empty write set.",
     note=TRUST + "Gas quantities/prices bounded to 6 bits in the apply kernel (the 128-bit multiplier is intractable beyond that), 8-bit balances "
          "in the commit and history kernels, sequential history semantics only (RwLock modelled as an exclusive lock; racing record / invalidate / scan "
